@@ -20,7 +20,7 @@ from __future__ import annotations
 import io
 import itertools
 import numpy as np
-from .common import Report, same_cell, reachable_arrays, _cell
+from .common import Report, same_cell, _cell
 
 PID = 'C16'
 QUOTE = '"'
@@ -708,7 +708,7 @@ def object_routes():
         return sf.Frame.from_concat(f.iter_series(axis=1), index=f.index)
 
     def concat_items_cols(f, case):
-        return sf.Frame.from_concat_items(((c, f[c]) for c in f.columns), axis=1) if False else sf.Frame.from_concat(tuple(f.iter_series(axis=0)), axis=1, columns=f.columns)
+        return sf.Frame.from_concat(tuple(f.iter_series(axis=0)), axis=1, columns=f.columns)
 
     return dict(pairs0_items=pairs0_items, pairs0_items_series=pairs0_items_series, pairs0_dict=pairs0_dict,
                 pairs1_records_items=pairs1_records_items, pairs1_dict_records_items=pairs1_dict_records_items,
